@@ -90,6 +90,8 @@ pub struct Dec<'a> {
     pub dedup_forms: Vec<bool>,
     /// the largest non-negative count met at a sequence whose elements have an empty encoding
     pub zero_width_max: usize,
+    /// bytes of strings cited by id so far (what the citations stand for, not what they occupy on the wire)
+    pub backref_bytes: usize,
     /// a lenient position was passed in the window being read: where the client codec left the cursor is not the
     /// format's business, so nothing more can be said about this window (reads answer `Unsupported`)
     cursor_lost: bool,
@@ -104,7 +106,7 @@ const POISONED: usize = usize::MAX;
 
 impl<'a> Dec<'a> {
     pub fn new(buf: &'a [u8]) -> Self {
-        Dec { buf, pos: 0, end: buf.len(), strings: Vec::new(), annots: Vec::new(), annotate: false, forms: Vec::new(), dedup_forms: Vec::new(), zero_width_max: 0, cursor_lost: false, tables_lost: false, depth: 0 }
+        Dec { buf, pos: 0, end: buf.len(), strings: Vec::new(), annots: Vec::new(), annotate: false, forms: Vec::new(), dedup_forms: Vec::new(), zero_width_max: 0, backref_bytes: 0, cursor_lost: false, tables_lost: false, depth: 0 }
     }
 
     pub fn pos(&self) -> usize {
@@ -213,6 +215,7 @@ impl<'a> Dec<'a> {
             self.note(off, AnnotKind::StringId, n as i64);
             let id = -(n as i64);
             if id >= 1 && id as usize <= self.strings.len() {
+                self.backref_bytes += self.strings[id as usize - 1].len();
                 Ok(self.strings[id as usize - 1].clone())
             } else {
                 err(ErrKind::InvalidStringId, format!("string id {id}, {} known", self.strings.len()))
@@ -702,6 +705,13 @@ pub fn ref_decode(ty: &Ty, bytes: &[u8]) -> Result<(Val, usize), DecErr> {
     let mut d = Dec::new(bytes);
     let v = d.decode(ty)?;
     Ok((v, d.pos))
+}
+
+/// total length of the strings the input cites by id on the path the strict decoder walks (whatever happens after)
+pub fn ref_backref_cost(ty: &Ty, bytes: &[u8]) -> usize {
+    let mut d = Dec::new(bytes);
+    let _ = d.decode(ty);
+    d.backref_bytes
 }
 
 /// the largest count of zero-width elements the input asks for on the path the strict decoder walks (whatever happens after)
